@@ -121,9 +121,10 @@ def run(ctx):
     thorough = ctx.tier == 'thorough' or ctx.widen
     values = [3, 1, 0, -2, Fraction(5, 2)]
     if thorough:
-        values += [7, -13, Fraction(1, 8), 10 ** 6, 123456789, Fraction(-7, 4), 255, 40000]
-        values += [ctx.rng.randint(-10 ** 4, 10 ** 4) for _ in range(6)]
-        values += [Fraction(ctx.rng.randint(-10 ** 4, 10 ** 4), 2 ** ctx.rng.randint(1, 6)) for _ in range(6)]
+        # (kept small: FACT, POWER, DEC2BIN … are called with these values)
+        values += [7, -13, Fraction(1, 8), Fraction(-7, 4), 100, 12]
+        values += [ctx.rng.randint(-150, 150) for _ in range(6)]
+        values += [Fraction(ctx.rng.randint(-600, 600), 2 ** ctx.rng.randint(1, 4)) for _ in range(6)]
 
     # ---- (0) the cast model against Number.cast for every spelling
     reqs, meta = [], []
